@@ -52,7 +52,8 @@ CHECKS.update({
    note=NOTE_DOC + "This is the property where the proof says least about the code itself.", technique="Coq-verified reference matcher + bounded exhaustive differential sweep", design="5/C08"),
  "C09": dict(
    text="Theorem: choosing the first matching usage of the SORTED expanded usages is independent of the order the hash set yields them (insertion sort is canonical on permutations: total antisymmetric transitive byte order, proved for Coq strings), with the pre-fix first-match-in-iteration-order refuted by witness (K11, fixed); the same for the whole tail mirror (acceptance and variables). The order the code tries the usages in (hook) must equal Coq's sort of the same strings. "
-        "Tie: every accepted pair (and a sample of rejected ones) is re-parsed 8/32 times in one process and in a different process; any two differing outcomes are a violation.",
+        "OptLookup.v: the repaired Options::find is the minimum of the matching descriptions in the derived order of OptionArg, which is proved to be a total order; the lookup is invariant under every permutation of the description set (K49, fixed: the first match was not) and equals the Tail mirror's lookup when no name is shared. "
+        "Tie: every accepted pair (and a sample of rejected ones) is re-parsed 8/32 times in one process and in a different process; any two differing outcomes are a violation; 1350 document/argv pairs whose option descriptions SHARE names are re-parsed as well, and the description the code answers with must be the model's.",
    note=NOTE_DOC + "That std's RandomState really produces different iteration orders is runtime behaviour (observed before the fix: 23/17 split in 40 calls). The model `choose` is not executed against the code (the matcher it abstracts over is the code's own).",
    technique="Coq proof of order-independence of sorted choice + repeated-parse determinism sweep", design="5/C09"),
  "C10": dict(
@@ -76,7 +77,9 @@ CHECKS.update({
  "C11": dict(
    text="Theorems over the mirror of main: rejected arguments -> no event, non-zero exit; help -> only the help text, exit 0; a file with an invalid task at any position -> no event at all (parse_file validates the whole file first). "
         "HelpDoc.v mirrors docopt::parse_help: a documentation block written the documented way is printed verbatim followed by the two note lines, and nothing after the first line without `#` (the tasks) reaches the help text. "
-        "Tie: scripts with an invalid task of each kind (unknown string key, non-string keys, internal field names, no module, two modules, non-mapping, null, sequence) at every position, non-sequence and syntactically broken files, rejected / help / valid argument vectors, on the real binary (marker log, stdout, exit status); the printed help text must equal the mirror's output exactly, also for blocks written in undocumented ways.",
+        "Valid.v mirrors validate_attrs + get_module_name: a task is accepted iff it is a mapping with string keys made of exactly one module name and known keywords; one unknown key invalidates the task, one invalid entry the file. "
+        "Tie: files of generated entries (random sets of module names, keywords, near-miss spellings, internal field names, non-string keys, non-mappings) accepted by the binary exactly when the extracted mirror accepts them, a marker task proving that nothing ran otherwise; "
+        "scripts with an invalid task of each kind (unknown string key, near-miss keyword spellings, non-string keys, internal field names, no module, two modules, non-mapping, null, sequence) at every position, top-level mappings / strings / numbers, non-sequence and syntactically broken files, rejected / help / valid argument vectors, on the real binary (marker log, stdout, exit status); the printed help text must equal the mirror's output exactly, also for blocks written in undocumented ways.",
    note=NOTE_ENG + "docopt's decision itself is an input of the model (C07-C10 cover it); clap's handling of rash's own options is outside the property.",
    technique="Coq proof over a mirror of main's control flow + fault placement runs on the real binary", design="5/C11"),
  "C17": dict(
@@ -94,7 +97,9 @@ CHECKS.update({
 CHECKS.update({
  "C12": dict(
    text="Theorems over the pipelines of jinja::_render and set_vars, for EVERY evaluator satisfying three stated laws (text without opening delimiters renders to itself; `{{ x }}` renders to the string x holds; Coq's conservative plain_string implies the YAML reader returns that string): a literal parameter and a substituted value reach a force-string parameter byte for byte; vars / set_vars keep every plain string; K6 (second render) and K7 (YAML re-typing) are refuted by witnesses on a law-abiding evaluator. "
-        "Tie: ~400 (quick) metacharacter-weighted strings x 5 channels, one real rash process each, the file written by copy and the argv received by a helper compared byte for byte; command stdout/stderr/rc and `omit`.",
+        "Tie: ~400 (quick) metacharacter-weighted strings x 5 channels, one real rash process each, the file written by copy and the argv received by a helper compared byte for byte; command stdout/stderr/rc. "
+        "Omit.v mirrors jinja::render_map: an entry that yields the omit placeholder is exactly as if it had not been written (for the rendered mapping and for the variables seen afterwards), nothing is invented, a mapping without omit is untouched; "
+        "tied by random mappings (text, references to earlier entries, `{{ omit }}`, `default(omit)`) as task vars / set_vars / mapping loop items compared with the extracted mirror, re-run without an omitted entry, and command / copy parameters with two omitted ones in every order.",
    note=NOTE_COMMON + "minijinja and serde_yaml are NOT modelled: they are Section variables; the three laws are the trusted statements about them and are exactly what the run validates on the generated strings. Class predicates (plain_string, has_open) are evaluated by the extracted Coq functions.",
    technique="Coq proof over the render pipelines with the template engine as an abstract oracle + byte-exact differential probes on the real binary", design="5/C12"),
  "C14": dict(
